@@ -21,6 +21,8 @@ type ReadOnlyFS struct {
 	sourceFS  hackpadfs.FS
 	cacheFS   writableFS
 	cacheInfo sync.Map
+	// partial holds names whose cache file is incomplete and could not be removed after a failed copy
+	partial sync.Map
 
 	pathlock pathlock.Mutex
 	options  ReadOnlyOptions
@@ -56,6 +58,13 @@ func (fs *ReadOnlyFS) Open(name string) (hackpadfs.File, error) {
 
 	fs.pathlock.Lock(name)
 	defer fs.pathlock.Unlock(name)
+	if _, isPartial := fs.partial.Load(name); isPartial {
+		// an earlier copy failed and its leftover could not be removed: never serve it. Try again to remove it
+		if err := hackpadfs.Remove(fs.cacheFS, name); err != nil && !errors.Is(err, hackpadfs.ErrNotExist) {
+			return fs.sourceFS.Open(name)
+		}
+		fs.partial.Delete(name)
+	}
 	{
 		// if file is in cache, return it. continue otherwise
 		f, err := fs.cacheFS.Open(name)
@@ -111,7 +120,9 @@ func (fs *ReadOnlyFS) copyFile(name string, f hackpadfs.File, info hackpadfs.Fil
 	}
 	if err != nil {
 		// do not leave a partial file in the cache, a later Open would serve it as if it were complete
-		_ = hackpadfs.Remove(fs.cacheFS, name)
+		if rmErr := hackpadfs.Remove(fs.cacheFS, name); rmErr != nil && !errors.Is(rmErr, hackpadfs.ErrNotExist) {
+			fs.partial.Store(name, struct{}{}) // the cache FS cannot remove it (now): remember not to serve it
+		}
 		return &hackpadfs.PathError{Op: "open", Path: name, Err: err}
 	}
 	return nil
